@@ -19,7 +19,7 @@ import (
 )
 
 func init() {
-	register(&Prop{ID: "C04", Module: "V.C04.Check", Gen: c04Gen, Quick: 2000, Thorough: 40000, Shard: 150})
+	register(&Prop{ID: "C04", Module: "V.C04.Check", Gen: c04Gen, Quick: 1800, Thorough: 40000, Shard: 140})
 }
 
 var c04FS = fstest.MapFS{
@@ -260,6 +260,8 @@ type c04Result struct {
 	fails    []string
 	f1       string
 	detail   map[string]string
+	proj2    map[int]string // clause projection of the formatted program (when it compiles)
+	boards2  map[string]string
 }
 
 func c04Run(text string) c04Result {
@@ -293,6 +295,11 @@ func c04Run(text string) c04Result {
 	} else {
 		res.ok2 = true
 		p2 := c04Project(g2, cfg2)
+		res.boards2 = p2.boards
+		res.proj2 = map[int]string{}
+		for _, c := range c04Codes {
+			res.proj2[c] = p2.clause[c].String()
+		}
 		for _, c := range c04Codes {
 			a, b := p1.clause[c].String(), p2.clause[c].String()
 			if a != b {
@@ -404,7 +411,10 @@ func c04Gen(r *Rng, tier string, n int) []Case {
 	if budget < 500 {
 		budget = 500
 	}
-	nGen := budget * 70 / 100
+	for i := 0; i < budget/8; i++ {
+		add(c03BlockWSProgram(r), "block-ws")
+	}
+	nGen := budget * 65 / 100
 	for i, tries := 0, 0; i < nGen && tries < nGen*8; tries++ {
 		var t string
 		if tries%5 == 4 {
